@@ -361,7 +361,10 @@ int main(int argc, char** argv)
     if (mode != "replay") { std::cerr << "unknown mode\n"; return 2; }
     InstallAbortHandlers();
     std::ofstream obs(path + ".obs");
+    // Every behaviour runs in a forked child: an assertion of the code under test (SanityCheck, or an assert inside TxGraph) ends that
+    // behaviour with an "abort" line and the others still run. The child appends its observations to the shared .obs file.
     ForEachLine(path, [&](size_t n, const UniValue& t) {
+        if (!ForkChild(n)) return;
         R().cur_test = n; R().cur_step = 0; R().cur_action = UniValue::VNULL;
         std::string why;
         try { why = RunTest(t, obs, n); }
@@ -369,6 +372,8 @@ int main(int argc, char** argv)
         if (!why.empty()) R().Mismatch(R().cur_action, why);
         ++R().tests;
         obs.flush();
+        R().Summary();
+        ExitChild();
     });
     R().Summary();
     return 0;
